@@ -6,6 +6,7 @@ CHECK = {
     "engine": "manager-scenario-engine",
     "technique": "stateful property testing (rapid state machine) of the service with a harness-owned schedule of background job completions; invariant evaluated inside the service loop after every step",
     "rule": ('scenario = generated UDP traffic (3-8 flows, up to 26 datagrams with payloads from a small pool, cut into 2-5 capture files so flows continue across captures) plus a rapid state-machine history of: importing the next capture(s), tag add / query edit / delete / colour, mark add / remove, converter attach / detach / reset, opening / using / releasing views, and *delivering the completion of a parked background job* (import, tagging, merge, convert) chosen by the generator - every job parks at a gate right before it posts its completion to the service loop, so the order of completions relative to API calls and to each other is generated. Scenario variants added later: one scenario in sixteen has 63/64/65/127/128 single-datagram flows (bitmap word boundaries); one import in eight also queues an upload that is no capture (empty, garbage, cut header); streams whose payload contains "x5" make the harness converter answer with a stray line in front of its output (the service gives up on them: no cached output may exist); tag/d, which no other tag refers to, may get a definition with a sub-query (ground truth by vq.EvalNFSub: some visible stream per sub-query name makes every condition true); held views are also asked tag filters (both polarities of marks) as part of their baseline; at quiescence a fresh view must show every capture the harness handed to ImportPcaps.; '
+             "One view in three is opened and asked nothing at first; a twin opened right behind it is read at once and is the baseline for what the first one answers later. At the end of a history the captures that were not uploaded are handed over as one PCAP-over-IP stream (local peer, endpoint added, removed once it has received everything); the fresh view of the final check must show them too. "
              "(a) a view opened when no import is in flight shows, by connection key, exactly the conversations of the captures whose import completion was delivered, each once, with the payload runs the traffic model gives for those captures; (b) every held view returns byte-identical AllStreams / Stream().Data() / packet references and identical results for three fixed searches each time it is used while imports, merges, tag and converter jobs are delivered in between. Non-trivial: a merge replaced files and an import appended files during the history or a view's lifetime."),
     "level_text": 'invariant checked after every step of generated histories with generated completion orders; finds lost invalidations / reference-count and snapshot errors that need a specific interleaving; no absence claim',
     "level_note": 'UDP traffic only (TCP reassembly is C05/C08); chronological imports; the model assumes no flow idles 5 minutes',
